@@ -53,12 +53,16 @@ structure World where
   /-- every outpoint the monitor claims once its parent confirms, with its kind: on the commitment this is
       `onConfirmRevoked` of Model/Punish.lean, on the second-stage transactions `allSecondClaims` -/
   outs : List (Outpoint × Kind)
-  /-- the second-stage transactions the cheater holds: the commitment outputs each of them spends -/
-  seconds : List (List Nat)
+  /-- the second-stage transactions the cheater holds, input by input: `some v` = spends commitment output `v` (with the
+      5-element witness of an HTLC transaction), `none` = any other input (a fee input of an anchor HTLC transaction) -/
+  inputs : List (List (Option Nat))
   /-- `counterparty_commitment_params.on_counterparty_tx_csv` -/
   csv : Nat
 
+/-- the commitment outputs each second-stage transaction spends -/
+def World.seconds (W : World) : List (List Nat) := W.inputs.map fun t => t.filterMap id
 def World.second (W : World) (k : Nat) : List Nat := W.seconds[k]?.getD []
+def World.inputsOf (W : World) (k : Nat) : List (Option Nat) := W.inputs[k]?.getD []
 def World.kindOf (W : World) (X : Outpoint) : Option Kind := (W.outs.find? fun e => decide (e.1 = X)).map (·.2)
 def World.allOutpoints (W : World) : List Outpoint := W.outs.map (·.1)
 
@@ -121,9 +125,12 @@ structure St where
   chain : Chain
   /-- `OnchainTxHandler::claimable_outpoints` (with `pending_claim_requests`) -/
   claim : Outpoint → Option Claim
+  /-- the outputs of this transaction of the cheater are in `outputs_to_watch`: it went through the monitor's spend checks at
+      some point (registrations are never removed, not even when the transaction is re-organised out) -/
+  seen : Parent → Bool
 
 def St.init (h0 : Nat) : St :=
-  { chain := { tip := h0, conf := fun _ => none, pfinal := fun _ => false, spent := fun _ => none }, claim := fun _ => none }
+  { chain := { tip := h0, conf := fun _ => none, pfinal := fun _ => false, spent := fun _ => none }, claim := fun _ => none, seen := fun _ => false }
 
 /-- transactions of interest in a block -/
 inductive BTx where
@@ -163,20 +170,23 @@ def applyTx (W : World) (h : Nat) (st : St) : BTx → Option St
   | .commit =>
     if st.chain.conf .commit = none then
       some { chain := { st.chain with conf := fun p => if p = .commit then some h else st.chain.conf p },
-             claim := regClaims W h .commit st.claim }
+             claim := regClaims W h .commit st.claim,
+             seen := fun p => if p = .commit then true else st.seen p }
     else none
   | .second k =>
-    if decide (k < W.seconds.length) && (st.chain.conf (.second k)).isNone && (st.chain.conf .commit).isSome &&
-        (W.second k).all (fun v => (st.chain.spent (.commit v)).isNone) then
+    if decide (k < W.seconds.length) && !(W.second k).isEmpty && (st.chain.conf (.second k)).isNone &&
+        (st.chain.conf .commit).isSome && (W.second k).all (fun v => (st.chain.spent (.commit v)).isNone) then
       some { chain := { st.chain with
                 conf := fun p => if p = .second k then some h else st.chain.conf p,
                 spent := fun X => if secondHits W k X then some ⟨h, false, false⟩ else st.chain.spent X },
-             claim := markSpent h (secondHits W k) (regClaims W h (.second k) st.claim) }
+             claim := markSpent h (secondHits W k) (regClaims W h (.second k) st.claim),
+             seen := fun p => if p = .second k then true else st.seen p }
     else none
   | .justice ops =>
     if ops.all (fun X => (st.chain.conf (parentOf X)).isSome && (st.chain.spent X).isNone) then
       some { chain := { st.chain with spent := fun X => if ops.contains X then some ⟨h, true, false⟩ else st.chain.spent X },
-             claim := markSpent h (fun X => ops.contains X) st.claim }
+             claim := markSpent h (fun X => ops.contains X) st.claim,
+             seen := st.seen }
     else none
 
 def applyTxs (W : World) (h : Nat) : St → List BTx → Option St
@@ -188,7 +198,8 @@ def applyTxs (W : World) (h : Nat) : St → List BTx → Option St
 -- mirrors update_claims_view_from_matched_txn, second loop (`has_reached_confirmation_threshold(cur_height)`)
 /-- spends with ANTI_REORG_DELAY confirmations become final; the handler forgets the claims they satisfied -/
 def mature (h : Nat) (st : St) : St :=
-  { chain := { st.chain with
+  { st with
+    chain := { st.chain with
         pfinal := fun p => st.chain.pfinal p || (match st.chain.conf p with | some s => handlerThresholdReached s h | none => false),
         spent := fun X => (st.chain.spent X).map fun sp =>
                   { sp with final := sp.final || handlerThresholdReached sp.height h } },
@@ -211,11 +222,64 @@ def bump (W : World) (h : Nat) (st : St) : St :=
         else some c
       | none => none }
 
+/-- what a block would do if EVERY transaction in it were handed to the spend checks (the reference `connect` is proved equal
+    to, `filter_block_complete`) -/
+def connectAll (W : World) (st : St) (txs : List BTx) : Option (St × List Outpoint) :=
+  let h := st.chain.tip + 1
+  match applyTxs W h { st with chain := { st.chain with tip := h } } txs with
+  | none => none
+  | some st1 =>
+    let st2 := mature h st1
+    let bc := W.allOutpoints.filter fun X =>
+      match st2.claim X with
+      | some c => c.spentAt.isNone && ((st.claim X).isNone || timerExpired h c.timer)
+      | none => false
+    some (bump W h st2, bc)
+
+/-! ### which transactions of a block reach the spend checks (`filter_block`) -/
+
+/-- txid of the output an input spends, as far as the filter can tell them apart -/
+inductive TxRef where
+  | funding
+  | tx (p : Parent)
+  | other
+  deriving DecidableEq, Repr
+
+/-- the inputs of a transaction, in order -/
+def inputRefs (W : World) : BTx → List TxRef
+  | .commit => [.funding]
+  | .second k => (W.inputsOf k).map fun i => match i with | some _ => .tx .commit | none => .other
+  | .justice ops => ops.map fun X => .tx (parentOf X)
+
+def selfRef : BTx → TxRef
+  | .commit => .tx .commit
+  | .second k => .tx (.second k)
+  | .justice _ => .other
+
+-- mirrors spends_watched_output: ANY input spends an output registered in `outputs_to_watch` (the funding output always is; every
+-- output of a counterparty commitment and every claimed output of a second-stage transaction once that transaction was processed)
+def spendsWatched (W : World) (seen : Parent → Bool) (t : BTx) : Bool :=
+  (inputRefs W t).any fun r => match r with | .funding => true | .tx p => seen p | .other => false
+
+/-- a transaction the filter dropped: it is on the chain, the monitor never looks at it -/
+def skipTx (W : World) (h : Nat) (st : St) (t : BTx) : Option St :=
+  (applyTx W h st t).map fun st' => { st with chain := st'.chain }
+
+-- mirrors filter_block (over the outputs watched BEFORE the block, `seen0`) followed by the per-transaction processing of
+-- transactions_confirmed: `matches` is the TRANSLATED Generated/Justice.lean `filterMatches`
+def applyBlock (W : World) (h : Nat) (seen0 : Parent → Bool) : St → List TxRef → List BTx → Option St
+  | st, _, [] => some st
+  | st, matched, t :: rest =>
+    let m := filterMatches (spendsWatched W seen0 t) (inputRefs W t) matched
+    match (if m then applyTx W h st t else skipTx W h st t) with
+    | some st' => applyBlock W h seen0 st' (if m then selfRef t :: matched else matched) rest
+    | none => none
+
 /-- a block with `txs` is connected at height `tip + 1`.  Result: new state and the outpoints spent by what the victim
     broadcasts while processing the block (new claims, and claims whose height timer expired) -/
 def connect (W : World) (st : St) (txs : List BTx) : Option (St × List Outpoint) :=
   let h := st.chain.tip + 1
-  match applyTxs W h { st with chain := { st.chain with tip := h } } txs with
+  match applyBlock W h st.seen { st with chain := { st.chain with tip := h } } [] txs with
   | none => none
   | some st1 =>
     let st2 := mature h st1
@@ -253,7 +317,7 @@ def disconnect (W : World) (st : St) (n : Nat) : Option (St × List Outpoint) :=
     some ({ chain := { tip := n, pfinal := st.chain.pfinal,
                        conf := fun p => match st.chain.conf p with | some s => if n < s then none else some s | none => none,
                        spent := fun X => match st.chain.spent X with | some sp => if n < sp.height then none else some sp | none => none },
-            claim := cl }, [])
+            claim := cl, seen := st.seen }, [])
   else none
 
 /-- the outpoints of every pending request that still has something to claim -/
@@ -296,7 +360,7 @@ def htlcKinds {S : Type} (tx : List (TxOut S)) : List Htlc → List (Outpoint ×
 
 /-- the claims of `onConfirmRevoked P m n tx` with their kinds, then those on the second-stage transactions -/
 def World.ofMonitor {S : Type} [DecidableEq S] (P : Secrets.Params S) (m : Mon S) (n : Nat) (tx : List (TxOut S))
-    (seconds : List (List Nat)) (csv : Nat) : World :=
+    (held : List (List (Option Nat))) (csv : Nat) : World :=
   { outs :=
       (if Secrets.getMinSeenSecret P m.store ≤ n then
         match Secrets.getSecret P m.store n with
@@ -306,7 +370,7 @@ def World.ofMonitor {S : Type} [DecidableEq S] (P : Secrets.Params S) (m : Mon S
             (match m.claimable.get n with
              | none => []
              | some data => htlcKinds tx (data.map (·.1)))
-      else []) ++ (allSecondClaims 0 seconds).map (fun X => (X, Kind.secondStage)),
-    seconds := seconds, csv := csv }
+      else []) ++ (allSecondClaimsAt 0 held).map (fun X => (X, Kind.secondStage)),
+    inputs := held, csv := csv }
 
 end Ldk.Justice
